@@ -222,10 +222,13 @@ func vNewBess() *vBessEnv {
 		vInstallBurstStub()
 	}
 	b := &bess{client: srv, endMarkerChan: make(chan []byte, 64)}
-	b.qciQosMap = map[uint8]*QosConfigVal{
-		0: {cbs: DefaultBurstSize, ebs: DefaultBurstSize, pbs: DefaultBurstSize, burstDurationMs: 10, schedulePriority: 7},
-		9: {cbs: 2048, ebs: 4096, pbs: 8192, burstDurationMs: 20, schedulePriority: 6},
-	}
+	// the QCI/QFI burst configuration is built by the real readQciQosMap from a
+	// configuration with two differing entries (the default entry 0 is added by
+	// the function itself)
+	b.readQciQosMap(&Conf{QciQosConfig: []QciQosConfig{
+		{QCI: 9, CBS: 2048, EBS: 4096, PBS: 8192, BurstDurationMs: 20, SchedulingPriority: 6},
+		{QCI: 7, CBS: 100, EBS: 200, PBS: 300, BurstDurationMs: 5, SchedulingPriority: 2},
+	}})
 	return &vBessEnv{b, srv}
 }
 
@@ -236,6 +239,7 @@ type vBessStack struct {
 
 // vNewBessStack: real PFCP handlers on the real bess plug-in on the in-harness BESS.
 func vNewBessStack() *vBessStack {
+	vConcreteClock(1000000) // time is not the subject of the harnesses built on this stack
 	env := vNewBess()
 	e := vNewEnv(false)
 	e.pc.rng = rand.New(&vRandSource{counter: true})
